@@ -39,6 +39,10 @@ def _find_signatures(
             generator = generator_for_signature_type_f(signature_type)
             seen += 1
             for idx, sec_key in enumerate(sec_keys):
+                if not isinstance(sec_key, (bytes, bytearray)):
+                    # a key that is itself still to be solved for (P2PKH): no
+                    # existing signature can be attributed to it yet
+                    continue
                 public_pair = sec_to_public_pair(sec_key, generator)
                 sign_value = signature_for_hash_type_f(signature_type)
                 v = generator.verify(public_pair, sign_value, sig_pair)
